@@ -33,32 +33,46 @@ def Env.getv (env : Env) : Ty → Bytes → R Value := getValue env.tc Config.ad
     its parent's payload, so `len / 8 + 2` levels always suffice. -/
 def depthFuel (buf : Bytes) : Nat := buf.length / 8 + 2
 
-def decodeMsg (env : Env) (buf : Bytes) (plainMsg : Bool) : R Decoded := do
-  let h ← decodeHeader buf
-  let r := h.flags &&& 0x80 ≠ 0
-  let cls :=
-    match lookupCommand env.registry h.code with
-    | none => env.clsUndefined
-    | some cid =>
-      if plainMsg then cid
-      else dispatch env.msgClasses env.registry env.clsUndefined h.code r
-  let avps ← decodeAvps buf 20
+/-- Class choice of `Message.from_bytes`. -/
+def chooseClass (env : Env) (h : Header) (plainMsg : Bool) : Nat :=
+  match lookupCommand env.registry h.code with
+  | none => env.clsUndefined
+  | some cid =>
+    if plainMsg then cid
+    else dispatch env.msgClasses env.registry env.clsUndefined h.code (h.flags &&& 0x80 ≠ 0)
+
+/-- Header of the constructed message: the class constructor acts on it, then
+    (`Config.decodeKeepsFlags`) the received flag octet is restored. -/
+def decodedHeader (mc : MsgClass) (h : Header) : Header :=
+  if Config.decodeKeepsFlags then { mc.applyHeader h with flags := h.flags } else mc.applyHeader h
+
+/-- `msg_type(header, avps)`. -/
+def construct (env : Env) (cls : Nat) (h : Header) (avps : List Avp) (fuel : Nat) : R Decoded :=
   match findMsgClass env.msgClasses cls with
   | none => .error .other
   | some mc =>
-    let h' := mc.applyHeader h
-    if mc.kind == 1 then do
-      let attrs ← undefAssignFuel env.getv env.dict env.canon (depthFuel buf) avps
-      pure (.undef cls h' avps attrs)
+    if mc.kind == 1 then
+      match undefAssignFuel env.getv env.dict env.canon fuel avps with
+      | .error e => .error e
+      | .ok attrs => .ok (.undef cls (decodedHeader mc h) avps attrs)
     else if mc.kind == 0 then
       match findClass env.classes cls with
       | some c =>
-        if c.isMessage && c.assigns then do
-          let o ← assignFuel env.getv env.dict env.classes (depthFuel buf) cls avps
-          pure (.typed cls h' o)
-        else pure (.plain cls h' avps)
-      | none => pure (.plain cls h' avps)
-    else pure (.plain cls h' avps)
+        if c.isMessage && c.assigns then
+          match assignFuel env.getv env.dict env.classes fuel cls avps with
+          | .error e => .error e
+          | .ok o => .ok (.typed cls (decodedHeader mc h) o)
+        else .ok (.plain cls (decodedHeader mc h) avps)
+      | none => .ok (.plain cls (decodedHeader mc h) avps)
+    else .ok (.plain cls (decodedHeader mc h) avps)
+
+def decodeMsg (env : Env) (buf : Bytes) (plainMsg : Bool) : R Decoded :=
+  match decodeHeader buf with
+  | .error e => .error e
+  | .ok h =>
+    match decodeAvps buf 20 with
+    | .error e => .error e
+    | .ok avps => construct env (chooseClass env h plainMsg) h avps (depthFuel buf)
 
 /-- `msg.avps` of a decoded message. -/
 def Decoded.avps (env : Env) : Decoded → R (List Avp)
@@ -72,8 +86,9 @@ def Decoded.header : Decoded → Header
   | .typed _ h _ => h
 
 /-- `msg.as_bytes()` of a decoded message. -/
-def Decoded.asBytes (env : Env) (d : Decoded) : R Bytes := do
-  let a ← d.avps env
-  encodeMsg d.header a
+def Decoded.asBytes (env : Env) (d : Decoded) : R Bytes :=
+  match d.avps env with
+  | .error e => .error e
+  | .ok a => encodeMsg d.header a
 
 end DV
